@@ -559,6 +559,18 @@ def rule_D7b(tree: Tree) -> RuleResult:
             el = sorted(src(s.value) for s in n.orelse if isinstance(s, ast.Expr))
             ok = th == ["self.client_cids.add(quic_packet.dcid)", "self.server_cids.add(quic_packet.scid)"] and el == ["self.client_cids.add(quic_packet.scid)", "self.server_cids.add(quic_packet.dcid)"]
     r.ob(ok, Finding("D7b", f"{QS}:QuicSession.handle_quic_packet:cid-learning", "an Initial packet teaches sender-CID := its SCID and receiver-CID := its DCID", hq.module.line(hq.node)))
+    # … and only an Initial packet does (plus NEW_CONNECTION_ID frames, below): Retry / Version Negotiation packets are dissected without any key, so anybody's
+    # datagram of that shape would register connection IDs that later capture another connection's short-header packets
+    r.instances += 1
+    adds = [c for c in body_walk(hq.node) if isinstance(c, ast.Call) and isinstance(c.func, ast.Attribute) and c.func.attr == "add" and (dotted(c.func.value) or "").endswith("_cids")]
+    cfgq = cfg_of(hq.node)
+    okc = bool(adds)
+    for c in adds:
+        facts = [(src(e), t) for e, t in cfgq.facts_at(cfgq.node_of(c))]
+        if not any(s2 == "quic_packet.packet_type == QuicPacketType.INITIAL" and t for s2, t in facts):
+            okc = False
+    r.ob(okc, Finding("D7b", f"{QS}:QuicSession.handle_quic_packet:cid-learning-initial-only",
+                      "connection IDs may be learned from packet headers only under `quic_packet.packet_type == QuicPacketType.INITIAL`", hq.module.line(hq.node)))
     hf = tree.func(QS, "QuicSession.handle_frame")
     r.instances += 1
     ok = False
